@@ -64,12 +64,26 @@ func c08a(c *Ctx) {
 	}
 	// timestamp of the lock checkpoint
 	var lockTs types.Object
+	var lockOpen ast.Node
 	for _, s := range f.Calls(Callee{pkgCtlog, "", "openCheckpoint"}) {
 		if a, ok := s.Node.(*ast.AssignStmt); ok && len(a.Lhs) == 3 && objOf(info, a.Lhs[0]) == lockCk {
-			lockTs = objOf(info, a.Lhs[1])
+			if _, fromLock := f.IsCallResult(lockBytesSource(f, s.Call), 0, specLockFet); fromLock {
+				lockTs = objOf(info, a.Lhs[1])
+				lockOpen = a
+			}
 		}
 	}
 	for _, cl := range structLits(f, pkgCtlog, "Log") {
+		if lits := f.Find(func(n ast.Node) bool { return n == ast.Node(cl) }); len(lits) == 1 && lockOpen != nil {
+			inst := f.Name + " lock values reach the Log"
+			okCk := f.soleReachingDef(lockCk, lockOpen, lits[0])
+			okTs := lockTs != nil && f.soleReachingDef(lockTs, lockOpen, lits[0])
+			if okCk && okTs {
+				c.OK(inst, "the checkpoint and timestamp used to build the Log are the ones opened from the lock store (no later redefinition reaches)", []string{f.Pos(cl)})
+			} else {
+				c.Bad(inst, f.Pos(cl), "the tree or tree-head time the Log starts from can be overwritten after the lock checkpoint was opened (e.g. by the values of the published checkpoint): the next round's time guard and tree would not be anchored in the lock store")
+			}
+		}
 		tr := compositeField(info, cl, "tree", -1)
 		inst := f.Name + " Log.tree"
 		ok := false
@@ -438,4 +452,20 @@ func c08e(c *Ctx) {
 			c.add(Result{Instance: inst, Verdict: Discharged, Evals: len(reach), Detail: fmt.Sprintf("%d module functions reachable, none calls Backend.Fetch", len(reach))})
 		}
 	}
+}
+
+// lockBytesSource returns the expression whose Bytes() is passed to
+// openCheckpoint (or the argument itself).
+func lockBytesSource(f *Func, call *ast.CallExpr) ast.Expr {
+	b := argByName(f.Info(), call, "b")
+	if b == nil {
+		return &ast.BadExpr{}
+	}
+	e := ast.Unparen(f.ResolveDeep(b).E)
+	if c, ok := e.(*ast.CallExpr); ok {
+		if sel, ok := ast.Unparen(c.Fun).(*ast.SelectorExpr); ok && sel.Sel.Name == "Bytes" {
+			return sel.X
+		}
+	}
+	return e
 }
